@@ -5,6 +5,8 @@
 //@function src/engine/core/memory/memtable.rs::insert
 //@function src/engine/core/memory/memtable.rs::insert_internal
 //@harness name=bucket_keeps_append_order kind=bounded bound="3 inserts over the concrete contexts a, b, a; event ids and timestamps symbolic" tier=thorough timeout=2400 gate=yes
+//@harness name=bucket_one_context_two_events kind=bounded bound="2 inserts into the one concrete context a; event ids and timestamps symbolic (also decreasing timestamps)" tier=manual timeout=900 gate=yes
+//@obligation C04.memtable_bucket.append_order_one_context : two events of one context sit in the bucket in the order they were applied, whatever their timestamps [bounded]
 //@obligation C04.memtable_bucket.append_order_within_context : events of one context sit in their bucket in the order they were inserted, whatever other contexts are inserted in between; nothing is lost (count and bucket sizes) [bounded]
 
     use crate::engine::core::EventId;
@@ -35,4 +37,21 @@
         kani::cover!(ids[0] > ids[2], "COVER:ids_not_ordered");
         std::mem::forget(m);
         assert!(ok, "OBL:C04.memtable_bucket.append_order_within_context");
+    }
+
+    #[kani::proof]
+    #[kani::unwind(8)]
+    fn bucket_one_context_two_events() {
+        let ids: [u64; 2] = kani::any();
+        let ts: [u64; 2] = kani::any();
+        let mut m = MemTable::new(10);
+        let r1 = m.insert(ev("a", ids[0], ts[0])).is_ok();
+        let r2 = m.insert(ev("a", ids[1], ts[1])).is_ok();
+        let ok = r1 && r2 && m.count == 2 && match m.events.get("a") {
+            Some(a) => a.len() == 2 && a[0].id.raw() == ids[0] && a[0].timestamp == ts[0] && a[1].id.raw() == ids[1] && a[1].timestamp == ts[1],
+            None => false,
+        };
+        kani::cover!(ts[1] < ts[0], "COVER:later_event_has_earlier_timestamp");
+        std::mem::forget(m);
+        assert!(ok, "OBL:C04.memtable_bucket.append_order_one_context");
     }
